@@ -35,19 +35,24 @@ OPS_YAML = apis.MIXIN_YAML.replace("    get: '/v1/{{name=operations/*}}'\n",
                                    "    get: '/v1/{{name=operations/*}}'\n    additional_bindings:\n    - get: '/v1/{{name=projects/*/operations/*}}'\n")
 
 
-def build(transport='grpc+rest'):
+def build(transport='grpc+rest', isolated=None):
+    """isolated=(response option, metadata option): a library whose service has exactly that one LRO method (same files), so that
+    no other method provides the imports its code needs."""
     fb = file('acme/lro/v1/types_b.proto', P, messages=[message('ResB', [field('b', 1, 'string'), field('n', 2, 'int32')])])
     fc = file('acme/lro/v1/types_c.proto', P, messages=[message('ResC', [field('c', 1, 'string'), field('flag', 2, 'bool')])])
     fo = file('acme/lro/v1/operation.proto', P, messages=[message('OpFileMeta', [field('step', 1, 'int32'), field('note', 2, 'string')])])
     msgs = [message('ResA', [field('a', 1, 'string'), field('pct', 2, 'int32')]), message('StartRequest', [field('name', 1, 'string')])]
     meths, cells = [], []
     for i, (r, m) in enumerate(itertools.product(TYPE_OPTS, TYPE_OPTS)):
+        if isolated and isolated != (r, m):
+            continue
         rpc = f'Op{i}'
         meths.append(method(rpc, Q('StartRequest'), OPERATION, http=('post', f'/v1/{{name=things/*}}:op{i}', '*'),
                             lro=(TYPE_OPTS[r][0], TYPE_OPTS[m][0])))
-        cells.append(dict(id=f'resp={r}|meta={m}', rpc=rpc, py=f'op{i}', resp=TYPE_OPTS[r][1], meta=TYPE_OPTS[m][1], kind='lro'))
-    meths.append(method('RawOp', Q('StartRequest'), OPERATION, http=('post', '/v1/{name=things/*}:raw', '*')))
-    cells.append(dict(id='unannotated', rpc='RawOp', py='raw_op', kind='raw'))
+        cells.append(dict(id=f'resp={r}|meta={m}' + ('|isolated' if isolated else ''), rpc=rpc, py=f'op{i}', resp=TYPE_OPTS[r][1], meta=TYPE_OPTS[m][1], kind='lro'))
+    if not isolated:
+        meths.append(method('RawOp', Q('StartRequest'), OPERATION, http=('post', '/v1/{name=things/*}:raw', '*')))
+        cells.append(dict(id='unannotated', rpc='RawOp', py='raw_op', kind='raw'))
     main = file('acme/lro/v1/svc.proto', P, messages=msgs, services=[service('Lro', meths)])
     std = desc.std_dep_names()
     fb.dependency.extend(std)
@@ -120,6 +125,16 @@ def make_jobs(ctx, only=None):
                              probe_args=dict(package=names.import_package(P), proto_package=P, cells=part, client=client, max_k=2,
                                              seed=ctx.seed, **{flag: True}),
                              _kind='drive', _client=vid, _cells=part))
+    # every type option once as the only response type and once as the only metadata type of a one-method service
+    iso = [(t, 'empty') for t in TYPE_OPTS] + [('empty', t) for t in TYPE_OPTS if t != 'empty'] + [('rel/not-imported', 'rel/operation-file')]
+    for r_, m_ in iso:
+        cid = f'resp={r_}|meta={m_}|isolated'
+        if only and (only.get('client') != 'sync+isolated' or cid not in (only.get('cells') or [cid])):
+            continue
+        ireq, iof, icells = build(isolated=(r_, m_))
+        jobs.append(dict(id=f'lro/isolated/{r_}/{m_}', req=ireq.SerializeToString(), opt_files=iof, probe='mc.probes.lro',
+                         probe_args=dict(package=names.import_package(P), proto_package=P, cells=icells, client='sync', max_k=1, seed=ctx.seed),
+                         _kind='drive', _client='sync+isolated', _cells=icells))
     if not only:
         jobs += rejection_jobs()
     if not only or only.get('client') == 'rest-v1beta1':
@@ -143,15 +158,16 @@ def run(ctx, only=None):
                 ctx.outcome('rejected:' + res['gen']['etype'])
             continue
         st = dict(client=job['_client'], cells=[c['id'] for c in job['_cells']][:3])
+        tag = (job['_cells'][0]['id'] + '|') if job['_client'] == 'sync+isolated' else ''
         if not res['gen']['ok']:
-            ctx.violation(f'generation:{res["gen"]["etype"]}:{res["gen"]["where"]}', f'generator failed: {res["gen"]["emsg"][:300]}', st)
+            ctx.violation(f'{tag}generation:{res["gen"]["etype"]}:{res["gen"]["where"]}', f'generator failed: {res["gen"]["emsg"][:300]}', st)
             continue
         if 'probe_error' in res:
             raise HarnessError(f'C08 probe {job["id"]}: ' + res['probe_error'][-2500:])
         obs = res['obs']
         if obs.get('import_error'):
             e = obs['import_error']
-            ctx.violation(f'import:{e["etype"]}:{e["where"]}', f'library does not import: {e["emsg"]}', st)
+            ctx.violation(f'{tag}import:{e["etype"]}:{e["where"]}', f'library does not import: {e["emsg"]}', st)
             continue
         ctx.state(obs['histories'], transitions=obs['polls'] + obs['histories'])
         ctx.validated_n(obs['histories'])
